@@ -116,8 +116,8 @@ fn props_case(ctx: &Ctx, st: &Setup, r: &mut Rng, nsteps: usize) {
         let fetched = if pc < 0xFE00 { SimInstr::decode(m.sim.mem[pc].get()).ok() } else { None };
         let reference = if !st.strict { reference_accesses(&m, pc) } else { None };
         let pre_words: BTreeMap<u16, (u16, u16)> = reference.as_ref().map(|(_, ws, _)| ws.iter().map(|(a, _)| (*a, m.sim.mem[*a].verif_parts())).collect()).unwrap_or_default();
-        let kb0: Option<Vec<u8>> = m.kb.as_ref().map(|b| b.read().unwrap().iter().copied().collect());
-        let ds0: Option<Vec<u8>> = m.ds.as_ref().map(|b| b.read().unwrap().clone());
+        let kb0: Option<Vec<u8>> = m.kb.as_ref().map(|b| b.read().unwrap_or_else(|e| e.into_inner()).iter().copied().collect());
+        let ds0: Option<Vec<u8>> = m.ds.as_ref().map(|b| b.read().unwrap_or_else(|e| e.into_inner()).clone());
         let mem_before = if user && checks { Some((0..=u16::MAX).map(|a| m.sim.mem[a]).collect::<Vec<_>>()) } else { None };
         // ---- step ----
         let (out, env, obs) = m.step(kbl, dsl);
@@ -150,8 +150,8 @@ fn props_case(ctx: &Ctx, st: &Setup, r: &mut Rng, nsteps: usize) {
             }
             if matches!(out, Outcome::Err(2) | Outcome::Err(3)) && !entered {
                 // a denied access leaves memory and device state unchanged
-                let kb1: Option<Vec<u8>> = m.kb.as_ref().map(|b| b.read().unwrap().iter().copied().collect());
-                let ds1: Option<Vec<u8>> = m.ds.as_ref().map(|b| b.read().unwrap().clone());
+                let kb1: Option<Vec<u8>> = m.kb.as_ref().map(|b| b.read().unwrap_or_else(|e| e.into_inner()).iter().copied().collect());
+                let ds1: Option<Vec<u8>> = m.ds.as_ref().map(|b| b.read().unwrap_or_else(|e| e.into_inner()).clone());
                 let mem_same = mem_before.as_ref().map(|b| (0..=u16::MAX).all(|a| m.sim.mem[a] == b[a as usize])).unwrap_or(true);
                 if kb0 != kb1 || ds0 != ds1 || !mem_same {
                     ctx.fail("C09", "denied_access_has_effects", format!("step {k}: violation reported at pc={pc:#06x} but memory or device state changed"), replay_of(st, &mut build(st), &envs));
